@@ -885,7 +885,7 @@ def oracle(case, settle_steps):
         if ev["path"] == "cb" and ev["target_inc"] is not None and ev["target_inc"] >= 0:
             tgt = incs[ev["target_inc"]]
             if tgt["closed"] is not None and ev["start"] > tgt["closed"]:
-                fails.append({"what": "message %d for %s, sent at step %d, was handed to the callback of a socket that "
+                fails.append({"what": "message %s for %s, sent at step %d, was handed to the callback of a socket that "
                                       "had been disconnected at step %d (never queued, never received by the re-opened "
                                       "endpoint)" % (ev["m"], list(ev["key"]), ev["start"], tgt["closed"]),
                               "key": list(ev["key"])})
@@ -896,11 +896,11 @@ def oracle(case, settle_steps):
             if not covers or inc.get("assigned"):
                 continue        # (a socket whose flags were assigned after construction is judged by the order rule alone)
             if inc["cb"] and not (ev["path"] == "cb" and ev["target_inc"] == i):
-                fails.append({"what": "message %d for %s was sent while the callback socket (incarnation %d) was open "
+                fails.append({"what": "message %s for %s was sent while the callback socket (incarnation %d) was open "
                                       "but did not reach its callback" % (ev["m"], list(ev["key"]), i),
                               "key": list(ev["key"])})
             if not inc["cb"] and ev["path"] == "cb":
-                fails.append({"what": "message %d for %s was sent while the plain socket (incarnation %d) was open but "
+                fails.append({"what": "message %s for %s was sent while the plain socket (incarnation %d) was open but "
                                       "went to a callback instead of the queue" % (ev["m"], list(ev["key"]), i),
                               "key": list(ev["key"])})
     for kj, q0, out in case["nb_seen"]:
@@ -1088,6 +1088,17 @@ def coarse_scenarios():
         [[("c", 1, 0, 0), B, ("u", 1, 0, "use_callbacks", True), ("r", 1, 0, 0), ("r", 1, 0, 0), ("r", 1, 0, 0)],
          [("c", 0, 0, 0), ("s", 0, 0, 1), ("s", 0, 0, 2), B, ("s", 0, 0, 3)]],
         [[("c", 1, 0, 1), B, ("u", 1, 0, "use_callbacks", False), ("r", 1, 0, 0), ("r", 1, 0, 0)],
+         [("c", 0, 0, 0), ("s", 0, 0, 1), B, ("s", 0, 0, 2), ("s", 0, 0, 3)]],
+        # one side KEEPS its socket object while the peer disconnects and a NEW socket object connects under the same
+        # key (callbacks on / off, both directions of the switch); messages before and after the switch: every message
+        # sent after the new peer connected must reach the NEW incarnation, exactly once, in order
+        [[("c", 1, 0, 1), B, ("d", 1, 0), ("c", 1, 0, 0), ("r", 1, 0, 0), ("r", 1, 0, 0), ("r", 1, 0, 0)],
+         [("c", 0, 0, 0), ("s", 0, 0, 1), B, ("s", 0, 0, 2), ("s", 0, 0, 3)]],
+        [[("c", 1, 0, 1), B, ("d", 1, 0), ("c", 1, 0, 1)],
+         [("c", 0, 0, 0), ("s", 0, 0, 1), B, ("s", 0, 0, 2), ("s", 0, 0, 3)]],
+        [[("c", 1, 0, 0), B, ("d", 1, 0), ("c", 1, 0, 1)],
+         [("c", 0, 0, 0), ("s", 0, 0, 1), B, ("s", 0, 0, 2), ("s", 0, 0, 3)]],
+        [[("c", 1, 0, 0), B, ("d", 1, 0), ("c", 1, 0, 0), ("r", 1, 0, 0), ("r", 1, 0, 0), ("r", 1, 0, 0)],
          [("c", 0, 0, 0), ("s", 0, 0, 1), B, ("s", 0, 0, 2), ("s", 0, 0, 3)]],
         # two socket ids between the same pair, callback receivers, senders in both directions
         [[("c", 1, 0, 1), ("c", 1, 1, 1), B, ("s", 1, 0, 1), ("s", 1, 1, 2)],
